@@ -7,27 +7,11 @@ use crate::gen::{census, G};
 use crate::odom;
 use crate::util::{cw, line_width};
 
-/// Known finding KF-C02-href: at width 1 a footnote line holding a width-2 character of a link
-/// target is 2 columns wide (`fmt_links` cannot report TooNarrow).
-pub fn kf_wide_href(html: &[u8], width: usize, cfg: &CfgSpec) -> bool {
-    if width != 1 || !cfg.footnotes_on() {
-        return false;
-    }
-    let dom = odom::parse(html);
-    (0..dom.nodes.len()).any(|n| {
-        dom.name(n) == Some("a") && dom.attr(n, "href").map(|h| h.chars().any(|c| cw(c) > 1)).unwrap_or(false)
-    })
-}
-
 pub fn check_width(case: &DocCase, st: &mut Stats) -> Result<(), String> {
     let html = case.html();
     let w = case.width;
     if case.cfg.overflow || case.cfg.no_link_wrap {
         return Err("harness: C02 domain excludes overflow / no_link_wrapping".into());
-    }
-    if !case.muts.is_empty() && kf_wide_href(&html, w, &case.cfg) {
-        st.exclude("KF-C02-href");
-        return Ok(());
     }
     let r = render(&case.cfg, &html, w);
     st.class(r.kind());
@@ -77,6 +61,50 @@ pub fn check_width(case: &DocCase, st: &mut Stats) -> Result<(), String> {
     Ok(())
 }
 
+/// Explicit input (regressions of fixed defects).
+#[derive(Clone, Debug, serde::Serialize, serde::Deserialize, PartialEq, Eq, Hash)]
+pub struct WidthCase {
+    pub html: String,
+    pub width: usize,
+    #[serde(default)]
+    pub footnotes: bool,
+}
+
+pub fn check_explicit(case: &WidthCase, st: &mut Stats) -> Result<(), String> {
+    let mut cfg = CfgSpec::plain();
+    if case.footnotes {
+        cfg.footnotes = Some(true);
+    }
+    let r = render(&cfg, case.html.as_bytes(), case.width);
+    st.class(r.kind());
+    if let Some(b) = r.bad() {
+        return Err(format!("{} (w={})", b, case.width));
+    }
+    if let Rend::Ok(s) = &r {
+        for l in s.lines() {
+            if line_width(l) > case.width {
+                return Err(format!("line wider than width: {} > {}: {:?}\nhtml={}", line_width(l), case.width, l, case.html));
+            }
+        }
+    }
+    st.nontrivial(case);
+    Ok(())
+}
+
+fn regression_items() -> Vec<WidthCase> {
+    let mk = |html: &str, width: usize, footnotes: bool| WidthCase { html: html.into(), width, footnotes };
+    vec![
+        // 8efba1e: prefix wider than the width in front of a zero-width block that renders a line
+        mk("<ol><li><table><tr><td></td></tr></table></li></ol>", 1, false),
+        mk("<ul><li><table><tr><td></td></tr></table></li></ul>", 1, false),
+        mk("<blockquote><table><tr><td></td></tr></table></blockquote>", 1, false),
+        // footnote holding a character wider than the width
+        mk("<p><a href=\"\u{4e00}\">b</a></p>", 1, true),
+        // 22d0245
+        mk("<table><tr><td>ccc<td>d<tr><td colspan=2>eeeeeeeeee</table>", 3, false),
+    ]
+}
+
 pub fn property() -> Property {
     let g = G::default().depth(3);
     let g2 = G::default().depth(2);
@@ -87,6 +115,7 @@ pub fn property() -> Property {
         assumptions: vec!["unicode-width is the width measure (as the property states)", "generated documents up to ~150 nodes"],
         hang_is_violation: false,
         subs: vec![
+            crate::engine::EnumSub::new("regressions", false, |_| regression_items(), check_explicit).boxed(),
             PropSub::new("grammar", 48_000, 480_000, move || doc_case(g.clone(), 1..=120, cfg_bounded(), false), check_width).with_validity(|c| c.doc.valid()).boxed(),
             PropSub::new("mutated", 24_000, 240_000, move || doc_case(g2.clone(), 1..=120, cfg_bounded(), true), check_width).with_validity(|c| c.doc.valid()).boxed(),
             FuzzSub { name: "fuzz_render", target: "fuzz_render", props: &["C02"], seconds: 120 }.boxed(),
